@@ -9,6 +9,7 @@ package server
 // business of the gguf harness stage. DESIGN.md section 5 (C10).
 
 import (
+	"bytes"
 	"context"
 	"encoding/binary"
 	"fmt"
@@ -27,7 +28,28 @@ var ggufBoundary = []uint64{0, 1, 2, 1 << 31, 1<<32 - 1, 1 << 32, 1 << 63, 1<<64
 func damageGGUF(orig []byte) ([]byte, string) {
 	d := verifsim.Draw
 	b := append([]byte(nil), orig...)
-	switch d("damage-kind", 5) {
+	switch d("damage-kind", 7) {
+	case 5, 6:
+		// the dimension of a tensor (located through the tensor's name): name, n_dims u32, dim u64
+		names := []string{"output.weight", "blk.0.attn.weight"}
+		name := names[d("tensor-name", len(names))]
+		if i := bytes.Index(b, []byte(name)); i >= 0 && i+len(name)+12 <= len(b) {
+			off := i + len(name)
+			vals := []uint64{1<<64 - 64, 1<<64 - 32, 1<<64 - 8, 1<<64 - 4, 1<<64 - 1, 1 << 63, 1<<63 - 8, 1 << 62, 1 << 61, 1<<61 - 4, 1 << 40, 0, 1<<32 + 1}
+			// a dimension whose byte size (4 bytes per element) wraps around to minus the
+			// position of the tensor's data, or to just before / after it
+			if pos := uint64(len(b) - 32); name == "output.weight" {
+				vals = append(vals, (-pos)/4, (-pos)/4+8, (-pos)/4-8, (-pos+32)/4, (-uint64(len(b)))/4)
+			}
+			v := vals[d("dim-value", len(vals))]
+			if d("dim-or-ndims", 4) == 0 {
+				binary.LittleEndian.PutUint32(b[off:], uint32(v))
+				return b, fmt.Sprintf("n_dims of %s := %#x", name, uint32(v))
+			}
+			binary.LittleEndian.PutUint64(b[off+4:], v)
+			return b, fmt.Sprintf("dim[0] of %s := %#x", name, v)
+		}
+		fallthrough
 	case 0:
 		k := d("truncate-at", len(b))
 		return b[:k], fmt.Sprintf("truncated at %d/%d", k, len(b))
@@ -169,6 +191,18 @@ func runGGUFAPI(t *testing.T, tape *verifsim.Tape, prop, tier string, keepLog bo
 		})
 		stop := sim.RunUntil(func() bool { return done }, time.Hour, 300000)
 		res.Info["stop_"+stop.String()]++
+		if stop == verifsim.StepBudget && len(sim.Violations()) == 0 && res.HarnessErr == "" {
+			// bounded work: everything this run does with its few-hundred-byte files takes a few
+			// thousand scheduling steps; 300 000 steps (and still going) is non-termination
+			funcs, detail := sim.BlockedSummary()
+			_ = funcs
+			last := ""
+			if n := len(w.desc); n > 0 {
+				last = w.desc[n-1]
+			}
+			tail := sim.TraceTail(12)
+			w.violate(prop, "api", "api-request-does-not-terminate", "a request that involves a damaged model file is still running after 300000 scheduling steps and %d file-system mutations (a healthy run of this workload takes a few thousand steps); last note: %s\nlast scheduling decisions: %v\n%s", w.ctl.Ops, last, tail, detail)
+		}
 		if stop == verifsim.Idle && len(sim.Violations()) == 0 && res.HarnessErr == "" {
 			_, detail := sim.BlockedSummary()
 			w.violate(prop, "api", "api-request-never-returns", "a request that involves a damaged model file never returned\n%s", detail)
